@@ -109,6 +109,7 @@ INVARIANT MembersFixed
 ACTION_CONSTRAINT Emit
 """
 CFG = """SPECIFICATION Spec
+CONSTANT WithFamily = TRUE
 INVARIANT AreaInvariant
 INVARIANT CentroidInvariant
 INVARIANT VolumeInvariant
@@ -122,7 +123,7 @@ def run(v):
     core.tlc_must_pass(res, "Voxel")
     v.add_tlc(res, "Voxel")
     cases = [r for r in res.records if "vertices" in r]
-    if len(cases) < 50:
+    if len(cases) < 500:
         raise core.MachineryError("vacuity: too few voxel cases")
     out = core.fan_out("mbt.c17", "replay", cases, None)
     for r, vs in zip(cases, out):
